@@ -6,6 +6,7 @@ import ast
 from ..source import norm, const_value, walk_no_nested
 from ..specs import operators as optab
 from . import coretypes as ct
+from . import array_folds as af
 from .common import is_name, params
 
 EXPLANATION = (
@@ -31,44 +32,15 @@ def r1_operator_table(run, tree):
 
 
 def r2_convert_before_combine(run, tree):
-    run.rule("C02.R2", "convert-before-combine on every path of _binary_op; operands never written", "path enumeration",
-             "", floor=4)
-    ct.analyse_binary_op(run, tree, "C02.R2")
-    r_coercion(run, tree)
+    run.rule("C02.R2", "convert-before-combine: _binary_op folded over right-operand kinds x unit relations x strictness; "
+             "operands never written", "D7 fold of the repository's own _binary_op/Array.__init__/Array.to over unit and buffer tokens",
+             "pint: Quantity.to raises DimensionalityError iff dimensions differ", floor=12)
+    af.check_binary_op_fold(run, tree)
     ct.check_array_constructor(run, tree)
 
 
-def r_coercion(run, tree):
-    """rhs of another class is coerced with lhs.__class__(rhs); NotImplementedError -> NotImplemented."""
-    fi = tree.func(ct.BINOP)
-    pn = params(fi)
-    L, R = pn[1], pn[2]
-    found = False
-    for n in walk_no_nested(fi.node):
-        if isinstance(n, ast.Assign) and len(n.targets) == 1 and is_name(n.targets[0], R) and isinstance(n.value, ast.Call):
-            f = n.value.func
-            if isinstance(f, ast.Attribute) and f.attr == "__class__" and is_name(f.value, L) and \
-                    len(n.value.args) == 1 and is_name(n.value.args[0], R):
-                found = True
-    run.ob(ct.BINOP + "::coercion", found, fi.where(),
-           "a right operand of another type is %s" % ("wrapped as lhs.__class__(rhs)" if found else "not coerced to an Array"),
-           "a + 1.0, a * ndarray, a + Quantity")
-
-
 def r3_unit_derivation(run, tree):
-    run.rule("C02.R3", "unit derivation covers the operator table", "table", "S4", floor=6)
-    unit_derivation_body(run, tree)
-
-
-def unit_derivation_body(run, tree):
-    f = ct.analyse_wrap_numpy(tree)
-    run.analysed(f.fi)
-    where = f.fi.where()
-    if f.apply_tuple is None:
-        run.unresolved(ct.ARRAY + "._wrap_numpy::APPLY_OP_TO_UNIT", where,
-                       "cannot find the `func.__name__ in <tuple of names>` test or its literal tuple")
-        return
-    # names used by the multiplicative operators of the table must be in the set
+    run.rule("C02.R3", "unit derivation covers the operator table", "D7 fold of _wrap_numpy per function name", "S4", floor=6)
     need = set()
     ci = tree.cls(ct.ARRAY)
     for dunder in ("__mul__", "__imul__", "__truediv__", "__itruediv__"):
@@ -77,61 +49,13 @@ def unit_derivation_body(run, tree):
         if sem and sem["ufunc"]:
             need.add(sem["ufunc"])
     need |= {"power", "reciprocal"}
-    for nm in sorted(need):
-        run.ob("%s::APPLY_OP_TO_UNIT[%s]" % (ct.ARRAY, nm), nm in f.apply_tuple, where,
-               "%s %s the unit-transforming set" % (nm, "is in" if nm in f.apply_tuple else "is MISSING from"),
-               "the result of np.%s keeps the unit of the first operand" % nm)
-    for nm in ("add", "subtract", "negative", "absolute", "less", "equal"):
-        run.ob("%s::APPLY_OP_TO_UNIT[not %s]" % (ct.ARRAY, nm), nm not in f.apply_tuple, where,
-               "%s must not have its unit recomputed from the unit quantities" % nm,
-               "np.%s applied to unit quantities (e.g. 1 m + 1 m = 2 m) is not a unit rule" % nm, nontrivial=False)
-    # on the path where the name is in the set, unit = func(*units(args), **kw-without-out).units
-    seen = {"derived": 0, "inherit": 0}
-    for p in f.paths:
-        if p["exit"][1] == "raise":
-            continue
-        in_set = None
-        for test, outcome in p["conds"]:
-            if test is getattr(f, "apply_test", None):
-                in_set = outcome
-        if in_set is None:
-            continue
-        # is a unit assigned at all on this path (dtype gate true)?
-        if p["unit"] in ("none", "unset"):
-            continue
-        if in_set:
-            seen["derived"] += 1
-            run.ob("%s._wrap_numpy::unit-of-transforming-function" % ct.ARRAY, p["unit"] == "derived",
-                   f.fi.where(p["unit_node"]) if p["unit_node"] is not None else where,
-                   "for a function in the set the unit is %s" % p["unit"],
-                   "a * b labelled with the unit of a")
-        else:
-            seen["inherit"] += 1
-            run.ob("%s._wrap_numpy::unit-of-other-function" % ct.ARRAY, p["unit"] == "inherit",
-                   f.fi.where(p["unit_node"]) if p["unit_node"] is not None else where,
-                   "for a function outside the set the unit is %s" % p["unit"],
-                   "a + b labelled with a unit other than that of a")
-    if not seen["derived"] or not seen["inherit"]:
-        run.unresolved(ct.ARRAY + "._wrap_numpy::unit-paths", where, "no path assigns a derived / inherited unit: %r" % seen)
-    # the derivation call excludes `out` and uses the same func
-    for n in walk_no_nested(f.fi.node):
-        if isinstance(n, ast.Call) and is_name(n.func, f.FUNC) and ct._is_units_call(f, n):
-            kw_ok = True
-            out_removed = any(isinstance(c, ast.Call) and isinstance(c.func, ast.Attribute) and is_name(c.func.value, f.KW) and
-                              c.func.attr == "pop" and c.args and const_value(c.args[0]) == "out" and c.lineno < n.lineno
-                              for c in walk_no_nested(f.fi.node))
-            for k in n.keywords:
-                if k.arg is None and isinstance(k.value, ast.Name) and k.value.id == f.KW and not out_removed:
-                    kw_ok = False  # forwards out= (an Array) into a call on Quantities
-            run.ob(ct.ARRAY + "._wrap_numpy::unit-derivation-kwargs", kw_ok, f.fi.where(n),
-                   "the unit derivation call %s the raw kwargs" % ("filters" if kw_ok else "forwards"),
-                   "x *= y: the unit call would write into x")
+    af.check_wrap_numpy_fold(run, tree, want=("derive", "inherit"), derive_names=sorted(need))
 
 
 def r4_dtype_gate(run, tree):
-    run.rule("C02.R4", "dtype gate is kind-complete (all numeric dtypes keep their unit)", "D7 fincase over 16 dtypes",
+    run.rule("C02.R4", "dtype gate is kind-complete (all numeric dtypes keep their unit)", "D7 fold of _wrap_numpy over 16 dtypes",
              "numpy dtype model", floor=13)
-    ct.check_dtype_gate(run, tree, want_numeric=True, want_bool=False)
+    af.check_wrap_numpy_fold(run, tree, want=("gate-numeric",))
 
 
 def r5_to(run, tree):
@@ -141,10 +65,9 @@ def r5_to(run, tree):
 
 
 def r6_helpers(run, tree):
-    from .units_rules import check_wrap_helpers
-    run.rule("C02.R6", "numpy-dispatch helpers: arrays/units extracted from every argument, others passed through",
-             "D7 fincase", "", floor=4)
-    check_wrap_helpers(run, tree)
+    run.rule("C02.R6", "numpy dispatch: buffers/units extracted from every argument, other operands passed through",
+             "D7 fold of _wrap_numpy over operand kinds", "", floor=4)
+    af.check_wrap_numpy_fold(run, tree, want=("operands",))
 
 
 RULES = [r1_operator_table, r2_convert_before_combine, r3_unit_derivation, r4_dtype_gate, r5_to, r6_helpers]
